@@ -36,8 +36,8 @@ Print Assumptions C09_verifies_means.
    after b itself: a certificate for b has been emitted by the end of the sequence iff b is known
    and valid single-signer votes for b from a quorum of distinct members are among the stimuli.
    ([props_ok]: while b is unknown the first proposal handled is b's own — a foreign proposal in
-   between sends the delayed votes through the network fetch, which the model has ([c_remote]) and
-   the harness exercises, but which is outside this statement.) *)
+   between sends the delayed votes through the network fetch; that case is [C09_qc_iff_quorum_fetch]
+   below, for a block that can be fetched.  When it cannot, the delayed votes are dropped.) *)
 Theorem C09_qc_iff_quorum : forall c, c_patched c = true -> forall b, 2 <= qsize c ->
   Forall (cons b) (c_remote c) ->
   forall store high es st' outs,
@@ -46,6 +46,22 @@ Theorem C09_qc_iff_quorum : forall c, c_patched c = true -> forall b, 2 <= qsize
   (emitted_for b outs <-> ((In b store \/ In (EPropose b) es) /\ quorum_arrived c b es)).
 Proof. exact qc_iff_quorum. Qed.
 Print Assumptions C09_qc_iff_quorum.
+
+(* The fetch path, without the restriction on proposals: when other replicas can provide b
+   ([local_get (c_remote c) (b_hash b) = Some b]: sender.RequestBlock succeeds, which is the case as soon as one
+   correct replica voted for b), EVERY sequence of stimuli is covered. [becomes_known]: b becomes known by its own
+   proposal or by the first proposal handled while a vote naming b (valid or not) waits — CollectVote retries the
+   delayed votes through blockchain.Get. *)
+Theorem C09_qc_iff_quorum_fetch : forall c, c_patched c = true -> forall b, 2 <= qsize c ->
+  Forall (cons b) (c_remote c) -> local_get (c_remote c) (b_hash b) = Some b ->
+  forall store high es st' outs,
+  Forall (cons b) store -> (high < b_view b)%N -> Forall (ev_ok b) es ->
+  run c (init store high) es = (st', outs) ->
+  (emitted_for b outs <->
+   (becomes_known b (match local_get store (b_hash b) with Some _ => true | None => false end) false es = true
+    /\ quorum_arrived c b es)).
+Proof. exact qc_iff_quorum_fetch. Qed.
+Print Assumptions C09_qc_iff_quorum_fetch.
 
 (* the same per stimulus: the certificate first appears exactly at the first stimulus that completes
    the condition, and not before *)
@@ -145,6 +161,15 @@ Example C09_unpatched_wedged :
   map (fun p => (fst p, map v_signer (snd p))) (st_verified (fst (run (ex_cfg false) (init [mkB 1 0; ex_b]%N 0%N) ex_es)))
   = [(2, [1; 2; 4; 3])]%N.
 Proof. split; vm_compute; reflexivity. Qed.
+
+(* the fetch path: three votes wait for the unknown block 2, a foreign proposal (block 9) is handled, the votes
+   are retried through the fetch and the certificate appears at that stimulus *)
+Example C09_fetch_nonvacuous :
+  let c := mkCfg [1;2;3;4]%N [ex_b] true in
+  let es := [EVote (mkVote 2 [ex_G 1 2]); EVote (mkVote 2 [ex_G 2 2]); EVote (mkVote 2 [ex_G 3 2]); EPropose (mkB 9 4)]%N in
+  snd (run c (init [mkB 1 0]%N 0%N) es) = [[]; []; []; [mkQC 2 5 [ex_G 1 2; ex_G 2 2; ex_G 3 2]]]%N /\
+  becomes_known ex_b false false es = true /\ local_get (c_remote c) (b_hash ex_b) = Some ex_b.
+Proof. repeat split; vm_compute; reflexivity. Qed.
 
 (* Kauri: node 1 (root of n = 4, own vote) merges {2} then {3,4}: the second one completes the quorum *)
 Example C09_kauri_nonvacuous :
